@@ -1,5 +1,337 @@
 import BridgeVerif.Spec.Msg
-/-! Helper lemmas for C19 (messages and framing). -/
+/-! Helper lemmas for C19 (messages and framing): characters, literal prefixes, the backtracking scanner,
+decimal numbers, the byte reader. -/
 namespace Bridge
+
+/-! ### characters as numbers -/
+theorem toNat_ofNat_small (n : Nat) (h : n < 55296) : (Char.ofNat n).toNat = n := by
+  have hv : n.isValidChar := Or.inl h
+  simp only [Char.ofNat, hv, dite_true]
+  simp [Char.ofNatAux, Char.toNat]
+
+theorem char_le_iff (a b : Char) : a ≤ b ↔ a.toNat ≤ b.toNat := by
+  rw [Char.le_def, UInt32.le_iff_toNat_le]; rfl
+
+theorem char_eq_iff (a b : Char) : a = b ↔ a.toNat = b.toNat := Char.toNat_inj.symm
+
+theorem lowerA_toNat (c : Char) :
+    (lowerA c).toNat = if 65 ≤ c.toNat ∧ c.toNat ≤ 90 then c.toNat + 32 else c.toNat := by
+  unfold lowerA
+  simp only [char_le_iff, show 'A'.toNat = 65 from rfl, show 'Z'.toNat = 90 from rfl]
+  by_cases h : 65 ≤ c.toNat ∧ c.toNat ≤ 90
+  · simp only [if_pos h]; exact toNat_ofNat_small _ (by omega)
+  · simp only [if_neg h]
+
+theorem upperA_toNat (c : Char) :
+    (upperA c).toNat = if 97 ≤ c.toNat ∧ c.toNat ≤ 122 then c.toNat - 32 else c.toNat := by
+  unfold upperA
+  simp only [char_le_iff, show 'a'.toNat = 97 from rfl, show 'z'.toNat = 122 from rfl]
+  by_cases h : 97 ≤ c.toNat ∧ c.toNat ≤ 122
+  · simp only [if_pos h]; exact toNat_ofNat_small _ (by omega)
+  · simp only [if_neg h]
+
+theorem foldC_toNat (c : Char) :
+    (foldC c).toNat = if c.toNat = 0x17F then 115 else if c.toNat = 0x212A then 107
+      else if c.toNat = 0x130 then 105 else if c.toNat = 0x131 then 105 else (lowerA c).toNat := by
+  unfold foldC
+  simp only [char_eq_iff, toNat_ofNat_small 0x17F (by omega), toNat_ofNat_small 0x212A (by omega),
+    toNat_ofNat_small 0x130 (by omega), toNat_ofNat_small 0x131 (by omega)]
+  repeat' split
+  all_goals first | rfl | skip
+
+theorem isWs_iff (d : Char) : isWs d = true ↔
+    (d.toNat = 32 ∨ d.toNat = 9 ∨ d.toNat = 10 ∨ d.toNat = 13 ∨ d.toNat = 11 ∨ d.toNat = 12) := by
+  simp only [isWs, Bool.or_eq_true, beq_iff_eq, char_eq_iff, toNat_ofNat_small 11 (by omega),
+    toNat_ofNat_small 12 (by omega)]
+  simp only [show ' '.toNat = 32 from rfl, show '\t'.toNat = 9 from rfl, show '\n'.toNat = 10 from rfl,
+    show '\r'.toNat = 13 from rfl]
+  omega
+
+theorem isDigit_iff (d : Char) : isDigit d = true ↔ 48 ≤ d.toNat ∧ d.toNat ≤ 57 := by
+  simp only [isDigit, decide_eq_true_eq, char_le_iff, show '0'.toNat = 48 from rfl,
+    show '9'.toNat = 57 from rfl]
+
+theorem foldC_lowerA (c : Char) : foldC (lowerA c) = foldC c := by
+  rw [char_eq_iff]; simp only [foldC_toNat, lowerA_toNat]; repeat' split
+  all_goals omega
+
+theorem lowerA_lowerA (c : Char) : lowerA (lowerA c) = lowerA c := by
+  rw [char_eq_iff]; simp only [lowerA_toNat]; repeat' split
+  all_goals omega
+
+theorem upperA_lowerA (c : Char) : upperA (lowerA c) = upperA c := by
+  rw [char_eq_iff]; simp only [upperA_toNat, lowerA_toNat]; repeat' split
+  all_goals omega
+
+theorem isWs_lowerA (c : Char) : isWs (lowerA c) = isWs c := by
+  rw [Bool.eq_iff_iff, isWs_iff, isWs_iff, lowerA_toNat]; split <;> omega
+
+theorem isDigit_lowerA (c : Char) : isDigit (lowerA c) = isDigit c := by
+  rw [Bool.eq_iff_iff, isDigit_iff, isDigit_iff, lowerA_toNat]; split <;> omega
+
+theorem lowerA_of_isDigit {c : Char} (h : isDigit c = true) : lowerA c = c := by
+  rw [isDigit_iff] at h
+  rw [char_eq_iff, lowerA_toNat]; split <;> omega
+
+theorem lowerA_eq_nl (c : Char) : lowerA c = '\n' ↔ c = '\n' := by
+  simp only [char_eq_iff, lowerA_toNat, show '\n'.toNat = 10 from rfl]; split <;> omega
+
+theorem eqCI_lowerA (a c : Char) : eqCI a (lowerA c) = eqCI a c := by
+  simp only [eqCI, foldC_lowerA]
+
+theorem eqCI_refl (c : Char) : eqCI c c = true := by simp [eqCI]
+
+theorem foldC_eq_of_lowerA_eq {a b : Char} (h : lowerA a = lowerA b) : foldC a = foldC b := by
+  rw [← foldC_lowerA a, h, foldC_lowerA]
+
+theorem upperA_eq_of_lowerA_eq {a b : Char} (h : lowerA a = lowerA b) : upperA a = upperA b := by
+  rw [← upperA_lowerA a, h, upperA_lowerA]
+
+/-! ### case variants -/
+theorem lowerS_lowerS (s : List Char) : lowerS (lowerS s) = lowerS s := by
+  simp [lowerS, lowerA_lowerA]
+
+theorem lowerS_append (a b : List Char) : lowerS (a ++ b) = lowerS a ++ lowerS b := by simp [lowerS]
+
+theorem CaseVariant.lowerS_eq {m m' : List Char} (h : CaseVariant m m') : lowerS m = lowerS m' := h
+
+theorem CaseVariant.fold {m m' : List Char} (h : CaseVariant m m') : m.map foldC = m'.map foldC := by
+  unfold CaseVariant at h
+  induction m generalizing m' with
+  | nil => cases m' <;> simp_all
+  | cons a r ih =>
+    cases m' with
+    | nil => simp at h
+    | cons b r' =>
+      simp only [List.map_cons, List.cons.injEq] at h ⊢
+      exact ⟨foldC_eq_of_lowerA_eq h.1, ih h.2⟩
+
+theorem CaseVariant.split {m a b : List Char} (h : CaseVariant m (a ++ b)) :
+    ∃ m1 m2, m = m1 ++ m2 ∧ CaseVariant m1 a ∧ CaseVariant m2 b := by
+  unfold CaseVariant at h
+  rw [List.map_append, List.map_eq_append_iff] at h
+  obtain ⟨m1, m2, rfl, h1, h2⟩ := h
+  exact ⟨m1, m2, rfl, h1, h2⟩
+
+/-! ### literal prefixes -/
+theorem strip_of_fold_eq (p p' r : List Char) (h : p'.map foldC = p.map foldC) :
+    stripPrefixCI p (p' ++ r) = some r := by
+  induction p generalizing p' with
+  | nil => cases p' <;> simp_all [stripPrefixCI]
+  | cons a q ih =>
+    cases p' with
+    | nil => simp at h
+    | cons b q' =>
+      simp only [List.map_cons, List.cons.injEq] at h
+      simp only [List.cons_append, stripPrefixCI, eqCI, h.1, beq_self_eq_true, if_true]
+      exact ih q' h.2
+
+theorem strip_self (p r : List Char) : stripPrefixCI p (p ++ r) = some r := strip_of_fold_eq p p r rfl
+
+theorem strip_variant {p p' : List Char} (r : List Char) (h : CaseVariant p' p) :
+    stripPrefixCI p (p' ++ r) = some r := strip_of_fold_eq p p' r h.fold
+
+theorem strip_append (p q s : List Char) :
+    stripPrefixCI (p ++ q) s = (stripPrefixCI p s).bind (stripPrefixCI q) := by
+  induction p generalizing s with
+  | nil => simp [stripPrefixCI]
+  | cons a p ih =>
+    cases s with
+    | nil => simp [stripPrefixCI]
+    | cons c s =>
+      simp only [List.cons_append, stripPrefixCI]
+      split
+      · exact ih s
+      · rfl
+
+theorem strip_some {p u r : List Char} (h : stripPrefixCI p u = some r) :
+    ∃ v, u = v ++ r ∧ v.map foldC = p.map foldC := by
+  induction p generalizing u with
+  | nil => simp only [stripPrefixCI, Option.some.injEq] at h; exact ⟨[], by simp [h], rfl⟩
+  | cons a p ih =>
+    cases u with
+    | nil => simp [stripPrefixCI] at h
+    | cons c u =>
+      simp only [stripPrefixCI] at h
+      split at h
+      · rename_i hc
+        obtain ⟨v, rfl, hv⟩ := ih h
+        refine ⟨c :: v, rfl, ?_⟩
+        simp only [eqCI, beq_iff_eq] at hc
+        simp [hv, hc]
+      · cases h
+
+/-- a literal whose first character does not occur (up to case) in the text does not match -/
+theorem strip_none_of_head {a : Char} {p u : List Char} (h : ∀ c ∈ u.head?, eqCI a c = false) :
+    stripPrefixCI (a :: p) u = none := by
+  cases u with
+  | nil => rfl
+  | cons c u => simp [stripPrefixCI, h c (by simp)]
+
+theorem strip_lowerS (p s : List Char) :
+    stripPrefixCI p (lowerS s) = (stripPrefixCI p s).map lowerS := by
+  induction p generalizing s with
+  | nil => simp [stripPrefixCI]
+  | cons a p ih =>
+    cases s with
+    | nil => simp [stripPrefixCI, lowerS]
+    | cons c s =>
+      simp only [lowerS, List.map_cons, stripPrefixCI, eqCI_lowerA]
+      split
+      · exact ih s
+      · rfl
+
+/-! ### the backtracking scanner -/
+theorem greedy_some {α : Type} (s : List Char) (k : List Char → List Char → Option α) (r : α) (i : Nat)
+    (hk : k (s.take i) (s.drop i) = some r) (n : Nat) (hin : i ≤ n)
+    (hfail : ∀ j, i < j → j ≤ n → k (s.take j) (s.drop j) = none) : greedy s k n = some r := by
+  induction n with
+  | zero =>
+    have : i = 0 := by omega
+    subst this
+    simpa [greedy] using hk
+  | succ n ih =>
+    by_cases hi : i = n + 1
+    · subst hi
+      simp only [greedy, hk]
+    · simp only [greedy, hfail (n + 1) (by omega) (by omega)]
+      exact ih (by omega) fun j h1 h2 => hfail j h1 (by omega)
+
+/-- `(.*)` takes exactly `g` when the continuation accepts there and rejects every longer group -/
+theorem dotStar_append {α : Type} (g t : List Char) (k : List Char → List Char → Option α) (r : α)
+    (hg : '\n' ∉ g) (hk : k g t = some r)
+    (hfail : ∀ d, 0 < d → k (g ++ t.take d) (t.drop d) = none) : dotStar (g ++ t) k = some r := by
+  unfold dotStar
+  apply greedy_some (i := g.length)
+  · rw [List.take_left' rfl, List.drop_left' rfl]; exact hk
+  · rw [List.takeWhile_append_of_pos (by
+      intro a ha; simp only [ne_eq, decide_not, Bool.not_eq_eq_eq_not, Bool.not_true, decide_eq_false_iff_not]
+      rintro rfl; exact hg ha)]
+    simp
+  · intro j h1 _
+    have hj : j = g.length + (j - g.length) := by omega
+    have h1 : (g ++ t).take j = g ++ t.take (j - g.length) := by
+      rw [List.take_append, List.take_of_length_le (by omega)]
+    have h2 : (g ++ t).drop j = t.drop (j - g.length) := by
+      rw [List.drop_append, List.drop_of_length_le (by omega)]; simp
+    rw [h1, h2]
+    exact hfail _ (by omega)
+
+/-! ### decimal numbers -/
+def digitCh (n : Nat) : Char := Char.ofNat ('0'.toNat + n % 10)
+
+theorem digitCh_toNat (n : Nat) : (digitCh n).toNat = 48 + n % 10 := by
+  unfold digitCh
+  rw [show '0'.toNat = 48 from rfl, toNat_ofNat_small _ (by omega)]
+
+theorem digitCh_isDigit (n : Nat) : isDigit (digitCh n) = true := by
+  rw [isDigit_iff, digitCh_toNat]; omega
+
+def decStep (n : Nat) (c : Char) : Nat := n * 10 + (c.toNat - '0'.toNat)
+
+theorem natDigitsAux_spec (fuel n : Nat) (acc : List Char) (h : n < fuel) :
+    ∃ ds, natDigitsAux fuel n acc = ds ++ acc ∧ ds ≠ [] ∧ (∀ c ∈ ds, isDigit c = true) ∧
+      ∀ init, ds.foldl decStep init = init * 10 ^ ds.length + n := by
+  induction fuel generalizing n acc with
+  | zero => omega
+  | succ fuel ih =>
+    simp only [natDigitsAux]
+    by_cases hn : n < 10
+    · simp only [if_pos hn]
+      refine ⟨[digitCh n], rfl, by simp, ?_, ?_⟩
+      · intro c hc; simp only [List.mem_singleton] at hc; subst hc; exact digitCh_isDigit n
+      · intro init
+        simp only [List.foldl_cons, List.foldl_nil, decStep, digitCh_toNat, List.length_singleton,
+          show '0'.toNat = 48 from rfl]
+        omega
+    · simp only [if_neg hn]
+      obtain ⟨ds, h1, h2, h3, h4⟩ := ih (n / 10) (digitCh n :: acc) (by omega)
+      refine ⟨ds ++ [digitCh n], ?_, by simp, ?_, ?_⟩
+      · rw [show Char.ofNat ('0'.toNat + n % 10) = digitCh n from rfl, h1]; simp
+      · intro c hc
+        simp only [List.mem_append, List.mem_singleton] at hc
+        rcases hc with hc | rfl
+        · exact h3 c hc
+        · exact digitCh_isDigit n
+      · intro init
+        rw [List.foldl_append, h4]
+        simp only [List.foldl_cons, List.foldl_nil, decStep, digitCh_toNat, List.length_append,
+          List.length_singleton, show '0'.toNat = 48 from rfl, Nat.pow_succ, Nat.add_mul, Nat.mul_assoc]
+        omega
+
+theorem natStr_ne_nil (n : Nat) : natStr n ≠ [] := by
+  obtain ⟨ds, h1, h2, _, _⟩ := natDigitsAux_spec (n + 1) n [] (by omega)
+  rw [natStr, h1]; simpa using h2
+
+theorem natStr_digits (n : Nat) : ∀ c ∈ natStr n, isDigit c = true := by
+  obtain ⟨ds, h1, _, h3, _⟩ := natDigitsAux_spec (n + 1) n [] (by omega)
+  rw [natStr, h1]; simpa using h3
+
+theorem decimal_natStr (n : Nat) : decimal? (natStr n) = some n := by
+  obtain ⟨ds, h1, h2, h3, h4⟩ := natDigitsAux_spec (n + 1) n [] (by omega)
+  have h5 : natStr n = ds := by rw [natStr, h1]; simp
+  have := h4 0
+  rw [h5, decimal?, if_neg]
+  · simp only [Nat.zero_mul, Nat.zero_add] at this
+    exact congrArg some this
+  · simp only [not_or, Decidable.not_not, List.all_eq_true]
+    exact ⟨h2, h3⟩
+
+/-- the digits of a number stop at the first non-digit -/
+theorem takeWhile_digits (ds rest : List Char) (hd : ∀ c ∈ ds, isDigit c = true)
+    (hr : ∀ c ∈ rest.head?, isDigit c = false) : (ds ++ rest).takeWhile isDigit = ds := by
+  rw [List.takeWhile_append_of_pos hd]
+  cases rest with
+  | nil => simp
+  | cons c rest => simp [hr c (by simp)]
+
+/-! ### the byte reader -/
+theorem recvOne_body (m rest acc : List Byte) (hm : CRFree m) :
+    recvOne (.body acc) (m ++ [CR, LF] ++ rest) = .msg (acc ++ m) rest := by
+  induction m generalizing acc with
+  | nil => simp [recvOne, rstep]
+  | cons b m ih =>
+    have hb : b ≠ CR := fun h => hm (by simp [h])
+    have hm' : CRFree m := fun h => hm (List.mem_cons_of_mem _ h)
+    simp only [List.cons_append, recvOne, rstep, if_neg hb]
+    have := ih (acc ++ [b]) hm'
+    simpa using this
+
+theorem recvOne_partial (tail acc : List Byte) (ht : PartialFrame tail) :
+    ∃ r, recvOne (.body acc) tail = .error r := by
+  have key : ∀ (q acc : List Byte), CRFree q → ∀ e, (e = [] ∨ e = [CR]) →
+      ∃ r, recvOne (.body acc) (q ++ e) = .error r := by
+    intro q
+    induction q with
+    | nil =>
+      intro acc _ e he
+      rcases he with rfl | rfl
+      · exact ⟨[], by simp [recvOne, rstep]⟩
+      · exact ⟨[], by simp [recvOne, rstep]⟩
+    | cons b q ih =>
+      intro acc hq e he
+      have hb : b ≠ CR := fun h => hq (by simp [h])
+      have hq' : CRFree q := fun h => hq (List.mem_cons_of_mem _ h)
+      simp only [List.cons_append, recvOne, rstep, if_neg hb]
+      exact ih (acc ++ [b]) hq' e he
+  rcases ht with h | ⟨q, hq, rfl⟩
+  · simpa using key tail acc h [] (Or.inl rfl)
+  · exact key q acc hq [CR] (Or.inr rfl)
+
+theorem recvAll_frames (msgs : List (List Byte)) (hm : ∀ m ∈ msgs, CRFree m)
+    (tail : List Byte) (ht : PartialFrame tail) (fuel : Nat) (hf : msgs.length < fuel) :
+    recvAll fuel ((msgs.map encodeMsg).flatten ++ tail) = msgs := by
+  induction msgs generalizing fuel with
+  | nil =>
+    obtain ⟨f, rfl⟩ : ∃ f, fuel = f + 1 := ⟨fuel - 1, by simp at hf; omega⟩
+    obtain ⟨r, hr⟩ := recvOne_partial tail [] ht
+    simp [recvAll, hr]
+  | cons m ms ih =>
+    obtain ⟨f, rfl⟩ : ∃ f, fuel = f + 1 := ⟨fuel - 1, by simp at hf; omega⟩
+    have h1 := recvOne_body m ((ms.map encodeMsg).flatten ++ tail) [] (hm m List.mem_cons_self)
+    simp only [List.nil_append] at h1
+    simp only [List.map_cons, List.flatten_cons, encodeMsg, List.append_assoc] at h1 ⊢
+    simp only [recvAll, h1]
+    rw [ih (fun x hx => hm x (List.mem_cons_of_mem _ hx)) f (by simp at hf; omega)]
 
 end Bridge
